@@ -171,7 +171,7 @@ func (d *definition) Wrapf(cause error, format string, args ...any) error {
 	if cause == nil {
 		return nil
 	}
-	fullMsg := fmt.Sprintf(format+": %s", append(args, cause.Error())...)
+	fullMsg := fmt.Sprintf(format, args...) + ": " + cause.Error()
 	return newError(d, cause, fullMsg, false, callersSkip)
 }
 
